@@ -211,11 +211,29 @@ fn cell(c: char, lowc: Option<char>, with_fold: bool, table: &mut SetTable) -> V
 }
 
 fn word_cells(s: &str, with_fold: bool, table: &mut SetTable) -> Vec<Value> {
+    use unic_ucd_category::GeneralCategory;
+    use unicode_segmentation::UnicodeSegmentation;
     let lower: Vec<char> = s.to_lowercase().chars().collect();
     let same_count = lower.len() == s.chars().count();
+    // S3 oracle (Algo!SegmentLens): "gb" - an extended grapheme cluster starts at this character (the segmentation
+    // crate's tables), "sp" - general category Mark or Other (the category crate's tables), "bs" - backslash.
+    // The RULE that combines them is the specification's.
+    let mut starts = std::collections::HashSet::new();
+    let mut k = 0;
+    for g in UnicodeSegmentation::graphemes(s, true) {
+        starts.insert(k);
+        k += g.chars().count();
+    }
     s.chars()
         .enumerate()
-        .map(|(i, c)| cell(c, if same_count { Some(lower[i]) } else { None }, with_fold, table))
+        .map(|(i, c)| {
+            let mut v = cell(c, if same_count { Some(lower[i]) } else { None }, with_fold, table);
+            let cat = GeneralCategory::of(c);
+            v["gb"] = json!(starts.contains(&i));
+            v["sp"] = json!(cat.is_mark() || cat.is_other());
+            v["bs"] = json!(c == '\\');
+            v
+        })
         .collect()
 }
 
